@@ -20,7 +20,8 @@ def FreshTasks (ts : List Task) : Prop := ∀ t ∈ ts, t.Fresh
 /-- **Context isolation.**  Under every schedule, a task whose program is not a transaction block never
 has a transaction in its context: nothing of it is ever buffered in an overlay, it takes no transaction
 lock, it is only ever parked before a *direct* backend command (or asleep, or finished) — and when it is
-released there, the command takes effect on the store in that very step and is logged under its name. -/
+released there, the command takes effect on the store in that very step and is logged under its name
+(`expire` changes no value; a conditional `set` decides on the store's presence at that very step). -/
 theorem ctx_isolation (store : Store) (ts : List Task) (hf : FreshTasks ts) (sched : List Act) (i : Nat)
     (hplain : ((World.init store ts).tasks i).isTx = false) :
     let w := (World.init store ts).run sched
@@ -30,17 +31,24 @@ theorem ctx_isolation (store : Store) (ts : List Task) (hf : FreshTasks ts) (sch
       (w.runTask i).store = (Mut.directSet k v).apply w.store ∧ (w.runTask i).log = w.log ++ [(i, .directSet k v)]) ∧
     (∀ k n, (w.tasks i).pc = .direct (.incr k n) →
       (w.runTask i).store = (Mut.directSet k ((w.store k).getD 0 + n)).apply w.store) ∧
-    (∀ k, (w.tasks i).pc = .direct (.delete k) → (w.runTask i).store = (Mut.directDel k).apply w.store) := by
+    (∀ k, (w.tasks i).pc = .direct (.delete k) → (w.runTask i).store = (Mut.directDel k).apply w.store) ∧
+    (∀ k, (w.tasks i).pc = .direct (.expire k) → (w.runTask i).store = w.store) ∧
+    (∀ k v e, (w.tasks i).pc = .direct (.setx k v e) →
+      (w.runTask i).store = if (w.store k).isSome = e then (Mut.directSet k v).apply w.store else w.store) := by
   intro w
   have hti := AllTI_run store ts hf sched i
   have hx : (w.tasks i).isTx = false := (isTx_run store ts sched i).trans hplain
   have hc := hti.plain_ctx hx
-  refine ⟨⟨hc, (hti.noctx hc).2.1, (hti.noctx hc).2.2, (hti.noctx hc).1, hti.noctx_pc hc⟩, ?_, ?_, ?_⟩
+  refine ⟨⟨hc, (hti.noctx hc).2.1, (hti.noctx hc).2.2, (hti.noctx hc).1, hti.noctx_pc hc⟩, ?_, ?_, ?_, ?_, ?_⟩
   · intro k v hpc
     refine ⟨?_, ?_⟩ <;> simp [taskStep_direct _ _ _ _ _ hpc, directStep]
   · intro k n hpc
     simp only [runTask_store, taskStep_direct _ _ _ _ _ hpc, directStep]
   · intro k hpc
+    simp only [runTask_store, taskStep_direct _ _ _ _ _ hpc, directStep]
+  · intro k hpc
+    simp only [runTask_store, taskStep_direct _ _ _ _ _ hpc, directStep]
+  · intro k v e hpc
     simp only [runTask_store, taskStep_direct _ _ _ _ _ hpc, directStep]
 
 /-- a step of one task never changes another task's state (its overlay, its context, its program counter):
@@ -86,8 +94,10 @@ theorem own_writes_only (store : Store) (ts : List Task) (hf : FreshTasks ts) (s
     have := hctx _ hpc
     simpa only [OWpark, hpc, Done] using this
 
-/-- **No lost increments.**  All transactions run in one mode `m`, locked or serializable; `k` is a pure
-counter (transactions only `incr` it, tasks outside a transaction do not write it); the schedule keeps every
+/-- **No lost increments.**  All transactions run in one mode `m`, locked or serializable; `k` is a
+counter: transactions only `incr` it or re-time it (`expire`, a read-modify-write that buffers the store's
+value and writes it back at commit — it contributes 0) or read it, none `set`s (plain or conditional) or deletes
+it, and tasks outside a transaction do not write it; the schedule keeps every
 transaction within its timeout (`WithinTimeout`: in every state passed through, each task inside its
 transaction entered it less than `timeout` ago).  Then in the state reached — final or not — the counter
 equals its initial value plus the sum, over the transactions whose commit has reached the store, of the
@@ -105,9 +115,10 @@ theorem no_lost_increments (store : Store) (ts : List Task) (hf : FreshTasks ts)
   have hmf : m ≠ .fast := by rcases hm with h | h <;> simp [h]
   exact (counter_run store ts hf k m hmf hmodes honly sched hT).sum
 
-/-- the key invariant behind it, exposed: while a transaction has the counter buffered it holds the lock that
-protects it, and what it has buffered is the store's *current* value plus its own increments so far — the
-store's value has not changed since the transaction seeded its overlay from it -/
+/-- the key invariant behind it, exposed: while a transaction has the counter buffered — seeded by its first
+`incr` or buffered by an `expire` — it holds the lock that protects it, and what it has buffered is the store's
+*current* value plus its own increments so far: the store's value has not changed since the transaction read it
+(so the value an `expire` writes back at commit is never stale) -/
 theorem buffered_counter_is_current (store : Store) (ts : List Task) (hf : FreshTasks ts) (k : Nat) (m : Mode)
     (hm : m = .locked ∨ m = .serializable)
     (hmodes : ∀ t ∈ ts, t.isTx = true → t.mode = m)
@@ -128,6 +139,45 @@ theorem buffered_counter_is_current (store : Store) (ts : List Task) (hf : Fresh
   split
   · rename_i hpc; simp [Task.active, hpc] at ha
   · exact hb.1
+
+/-- **Re-timing keeps the value.**  Same setting; if nobody writes `k` at all (transactions only `expire` or read
+it), then `k` holds its initial value in every state reached: the write-back of an `expire` never resurrects an
+older value. -/
+theorem retime_only_keeps_value (store : Store) (ts : List Task) (hf : FreshTasks ts) (k : Nat) (m : Mode)
+    (hm : m = .locked ∨ m = .serializable)
+    (hmodes : ∀ t ∈ ts, t.isTx = true → t.mode = m)
+    (hro : ∀ t ∈ ts, ∀ c ∈ t.prog, c.writes k = false)
+    (sched : List Act) (hT : WithinTimeout (World.init store ts) sched) :
+    let w := (World.init store ts).run sched
+    (w.store k).getD 0 = (store k).getD 0 := by
+  intro w
+  have hz : ∀ p : List Cmd, (∀ c ∈ p, c.writes k = false) → incrTotal k p = 0 := by
+    intro p
+    induction p with
+    | nil => intro _; rfl
+    | cons c r ih =>
+      intro h
+      have hr := ih (fun c' hc' => h c' (List.mem_cons_of_mem _ hc'))
+      have hc := h c List.mem_cons_self
+      cases c <;> simp_all [incrTotal, Cmd.writes]
+  have honly : ∀ t ∈ ts, OnlyIncr k t.isTx t.prog := by
+    intro t ht
+    unfold OnlyIncr
+    split
+    · intro c hc
+      have := hro t ht c hc
+      cases c <;> simp_all [Cmd.writes, Cmd.clobbers]
+    · exact hro t ht
+  have h := no_lost_increments store ts hf k m hm hmodes honly sched hT
+  rw [h, csum_zero]; · simp
+  intro i hi
+  split
+  · have : progOf ts i = (ts[i]).prog := by
+      unfold progOf
+      rw [List.getD_eq_getElem?_getD, List.getElem?_eq_getElem hi]; rfl
+    rw [this]
+    exact hz _ (hro _ (List.getElem_mem hi))
+  · rfl
 
 /-- **Lock holders exclude each other** (locked mode: per key; serializable: the one global lock), for every
 schedule within the timeouts: two tasks never believe to hold the same lock, and a held lock is recorded in
@@ -242,6 +292,48 @@ example : ((World.init (fun _ => none) exLate).run exLateSched).store 0 = some 2
 example : (((World.init (fun _ => none) exLate).run exLateSched).tasks 0).pc = .finished (.returned [some 1, some 2]) := by decide
 example : (((World.init (fun _ => none) exLate).run exLateSched).tasks 1).pc = .finished (.returned [some 1]) := by decide
 example : withinB (fun _ => none) exLate exLateSched = false := by decide
+
+/-- `expire` under contention: task 0 increments the counter and keeps its lock while task 1 wants to re-time the
+counter (and then increment it): task 1 is refused the lock, sleeps a lock step, and buffers the store's value only
+once it owns the lock — after task 0's commit.  Nothing is lost: 1 + 1 + 2. -/
+def exRetime (m : Mode) : List Task :=
+  [{ isTx := true, mode := m, timeout := 40, form := .dec, prog := [.incr 0 1] },
+   { isTx := true, mode := m, timeout := 40, form := .dec, prog := [.expire 0, .incr 0 2] }]
+
+def exRetimeSched : List Act :=
+  [.run 0, .run 0, .run 0, .run 1, .run 1, .run 0, .run 0, .adv 4, .run 1, .run 1, .run 1, .run 1]
+
+def exStore1 : Store := fun k => if k = 0 then some 1 else none
+
+example : WithinTimeout (World.init exStore1 (exRetime .locked)) exRetimeSched :=
+  withinTimeout_of_check _ _ (by intro t ht; simp [exRetime] at ht; rcases ht with rfl | rfl <;> constructor <;> rfl) _ (by decide)
+example : ∀ t ∈ exRetime .locked, OnlyIncr 0 t.isTx t.prog := by
+  intro t ht
+  simp [exRetime] at ht
+  rcases ht with rfl | rfl <;> simp [OnlyIncr, Cmd.clobbers]
+example : (((World.init exStore1 (exRetime .locked)).run (exRetimeSched.take 5)).tasks 1).pc = .lockSleep 0 9 4 := by decide
+example : (((World.init exStore1 (exRetime .locked)).run (exRetimeSched.take 9)).tasks 1).pc = .expGet 0 := by decide
+example : (((World.init exStore1 (exRetime .locked)).run (exRetimeSched.take 10)).tasks 1).ov = [(0, 4)] := by decide
+example : ((World.init exStore1 (exRetime .locked)).run exRetimeSched).store 0 = some 4 := by decide
+example : ((World.init exStore1 (exRetime .serializable)).run exRetimeSched).store 0 = some 4 := by decide
+example : mineOf ((World.init exStore1 (exRetime .locked)).run exRetimeSched) 1 = [.setMany [(0, 4)]] := by decide
+/-- the mode hypothesis is needed for `expire` too: in fast mode (no lock) the re-timing transaction buffers the
+value before the other commit and writes it back over it — task 0's increment is lost (1 + 1 + 2 ≠ 3) -/
+example : ((World.init exStore1 (exRetime .fast)).run
+    [.run 0, .run 1, .run 1, .run 0, .run 0, .run 1, .run 1]).store 0 = some 3 := by decide
+
+/-- conditional `set`: only-if-absent on a key another transaction has just created is refused (result 0) once the
+lock is handed over, only-if-present succeeds -/
+def exSetx : List Task :=
+  [{ isTx := true, mode := .locked, timeout := 40, form := .ctx, prog := [.set 1 5] },
+   { isTx := true, mode := .locked, timeout := 40, form := .ctx, prog := [.setx 1 7 false, .setx 1 8 true, .setx 2 9 true] }]
+
+example : (((World.init (fun _ => none) exSetx).run
+    [.run 0, .run 0, .run 1, .run 1, .run 0, .run 0, .adv 4, .run 1, .run 1, .run 1, .run 1, .run 1, .run 1, .run 1, .run 1]).tasks 1).pc
+    = .finished (.returned [some 0, some 1, some 0]) := by decide
+example : ((World.init (fun _ => none) exSetx).run
+    [.run 0, .run 0, .run 1, .run 1, .run 0, .run 0, .adv 4, .run 1, .run 1, .run 1, .run 1, .run 1, .run 1, .run 1, .run 1]).store 1
+    = some 8 := by decide
 
 /-- a task outside any transaction next to a transaction: its `set` is in the store in the very step, while the
 transaction's own write of the same key waits for the commit -/
